@@ -350,6 +350,15 @@ gen_unit (Rng& r, unsigned cls)
             for (int i = 1; i < 3; ++i)
                 if (::fabsl (a[i]) > ::fabsl (a[m])) m = i;
             std::swap (a[m], a[big]);
+            // half of the cases: the other two components 1e-1..1e-8 of the largest (a wrongly chosen
+            // diagonal element then loses that many digits)
+            if (r.coin ())
+            {
+                for (int i = 0; i < 3; ++i)
+                    if (i != big) a[i] *= p10 ((int) r.range (1, 8));
+                long double n = ::sqrtl (a[0] * a[0] + a[1] * a[1] + a[2] * a[2]);
+                for (int i = 0; i < 3; ++i) a[i] /= n;
+            }
             long double s = ::sqrtl (1 - w * w);
             u.c[0]        = w;
             for (int i = 0; i < 3; ++i) u.c[i + 1] = a[i] * s;
